@@ -116,22 +116,27 @@ def write_via(factory, header, lines, typed, sort, method, tmp, tag, positional=
     from maflib.writer import MafWriter
     mode = impl.MODES["Strict" if typed else "Silent"]
     buf, path = None, None
+    # the flag as callers spell it: any false value asks for sorting (False, 0, None), any true one (True, 1) does not
+    flag = [False, 0, None][tag % 3] if sort else [True, 1][tag % 2]
+    # a clean-up path that closes the writer a second time (the recording handle stays writable after close(), like a
+    # wrapper whose close() only flushes): nothing more is written
+    closes = [None, None] if (factory in ("ctor", "from_fd") and tag % 3 == 1) else [None]
     with impl.LogCapture():
         try:
             if factory == "ctor":
                 buf = impl.RecordingHandle()
-                w = MafWriter(buf, header, mode, not sort) if positional else MafWriter(handle=buf, header=header, validation_stringency=mode, assume_sorted=not sort)
+                w = MafWriter(buf, header, mode, flag) if positional else MafWriter(handle=buf, header=header, validation_stringency=mode, assume_sorted=flag)
             elif factory == "from_fd":
                 buf = impl.RecordingHandle()
-                w = MafWriter.from_fd(buf, header, validation_stringency=mode, assume_sorted=not sort)
+                w = MafWriter.from_fd(buf, header, validation_stringency=mode, assume_sorted=flag)
             else:
                 path = os.path.join(tmp, "w_%d.maf%s" % (tag, ".gz" if factory == "path-gz" else ""))
-                w = MafWriter.from_path(path, header, validation_stringency=mode, assume_sorted=not sort) if positional else \
-                    MafWriter.from_path(path=path, header=header, validation_stringency=mode, assume_sorted=not sort)
+                w = MafWriter.from_path(path, header, validation_stringency=mode, assume_sorted=flag) if positional else \
+                    MafWriter.from_path(path=path, header=header, validation_stringency=mode, assume_sorted=flag)
         except Exception as e:  # noqa
             return {"init_exc": exc_name(e)}
         excs = []
-        for ln in lines + [None]:
+        for ln in lines + closes:
             try:
                 if ln is None:
                     w.close()
@@ -180,7 +185,9 @@ def eval_write_route(hroute, factory, method, specs, order, contigs, typed, sort
     verdict (shared by run and replay_case).  The order and contig list the body is judged by are the ones declared by
     the pragma lines of the produced file itself.  Returns (result, where, failures, body or None, model request or None)."""
     where = {"case": "writer-route", "header_route": hroute, "factory": factory, "method": method, "records": [list(sp) for sp in specs],
-             "sorting": sort, "typed": typed, "order": order, "contigs": contigs, "positional_args": positional}
+             "sorting": sort, "typed": typed, "order": order, "contigs": contigs, "positional_args": positional, "tag": tag,
+             "assume_sorted_given_as": repr([False, 0, None][tag % 3] if sort else [True, 1][tag % 2]),
+             "closed_twice": factory in ("ctor", "from_fd") and tag % 3 == 1}
     fails = []
     try:
         header = SC.header_via(hroute, order, contigs, tmp, typed)
@@ -554,7 +561,7 @@ def replay_case(ctx, failure):
             print("    write tumor=%r normal=%r chr=%r start=%r end=%r" % (sp[0], sp[1], sp[2], sp[3], sp[3] + sp[4]))
         print("    close")
         with tempfile.TemporaryDirectory() as tmp:
-            res, where, fails, body, req = eval_write_route(hroute, factory, method, specs, order, contigs, typed, sort, tmp, 1, failure.get("positional_args", True))
+            res, where, fails, body, req = eval_write_route(hroute, factory, method, specs, order, contigs, typed, sort, tmp, int(failure.get("tag", 1)), failure.get("positional_args", True))
         text = None if res is None else res.get("text")
 
         def parts(t):
